@@ -222,7 +222,7 @@ class Case:
                     kw[py] = None
                     words.append(f"{py}=none")
         if ci in U.leaflike:
-            na = r.randint(1, 3)                      # one total size (4 items), different splits
+            na = r.randint(0, 4)                      # one total size (4 items), different splits - an empty array included
             kw["arr"] = [float(r.randint(0, 9)) for _ in range(na)]
             kw["brr"] = [r.randint(10, 19) for _ in range(4 - na)]
         name = self.new_name()
